@@ -688,6 +688,79 @@ def b_neq_option(m, xs):
     n, labels = connected_components(m, directed=False)
     return sorted(xs, reverse=True), labels
 
+def _vp_nonneg(message, *values):
+    if any(v < 0 for v in values):
+        raise ValueError(message)
+def a_vararg_helper(p, q):
+    _vp_nonneg("negative", p, q)
+    return p + q
+def b_vararg_helper(p, q):
+    if p < 0 or q < 0:
+        raise ValueError("negative")
+    return p + q
+
+def _vp_flagged(p, flag=True):
+    return [p] if (p is not None) == flag else []
+def a_bool_flag(p):
+    return _vp_flagged(p)
+def b_bool_flag(p):
+    return [p] if p is not None else []
+
+class _VPSeg(NamedTuple):
+    offset: int
+    frames: int
+    rate: int
+    @property
+    def start(self):
+        return self.offset / self.rate
+    @property
+    def end(self):
+        if self.frames is None:
+            raise ValueError("open ended")
+        return self.start + self.frames / self.rate
+    def scaled(self, k):
+        return self.offset * k
+def a_record_property(p, q, r):
+    seg = _VPSeg(offset=int(p), frames=int(q), rate=r)
+    return seg.start, seg.end, seg.scaled(2)
+def b_record_property(p, q, r):
+    return int(p) / r, int(p) / r + int(q) / r, int(p) * 2
+
+def _vp_pick(c, names):
+    return {n: c[n] for n in names}
+def a_comp_after_subst(c, p, q):
+    return _vp_pick(c, (p, q))
+def b_comp_after_subst(c, p, q):
+    return {p: c[p], q: c[q]}
+
+def a_neq_vararg(p, q):
+    _vp_nonneg("negative", p)
+    return p + q
+def b_neq_vararg(p, q):
+    _vp_nonneg("negative", p, q)
+    return p + q
+
+def _vp_find(rows, k):
+    for name, val in rows:
+        if name == k:
+            return val
+    return None
+def a_search_helper(rows, k, f):
+    v = _vp_find(rows, k)
+    return f(v)
+def b_search_helper(rows, k, f):
+    return f(next((val for name, val in rows if name == k), None))
+
+def _vp_find_ne(rows, k):
+    for name, val in rows:
+        if name != k:
+            return val
+    return None
+def a_neq_search_helper(rows, k, f):
+    return f(_vp_find(rows, k))
+def b_neq_search_helper(rows, k, f):
+    return f(_vp_find_ne(rows, k))
+
 def a_neq_order(p, q):
     return [p, q]
 def b_neq_order(p, q):
@@ -700,8 +773,9 @@ EQUAL = ["helper", "raise_in_helper", "ite", "single_exit", "loop_append", "dict
          "search_loop", "comp_display", "star_display", "map_display", "dict_values", "dict_setitem", "empty_appends", "extend_comp",
          "multi_fill", "local_gen", "zip_display", "search_preset", "cond_record", "local_call", "explicit_defaults", "guarded_loop", "isinstance_tuple", "for_else", "range_spelled", "fancy_zip", "helper_kw",
          "gen_return", "counted_while", "join_fstr", "minmax_ite", "gen_display", "int_fold", "dict_call", "clamp_helper",
-         "table_items", "star_list", "list_concat", "itemgetter2", "axis_helper", "table_member", "registry"]
-DIFFERENT = ["neq_filter", "neq_later_mutation", "neq_order", "neq_search_default", "neq_option", "neq_gen_stop"]
+         "table_items", "star_list", "list_concat", "itemgetter2", "axis_helper", "table_member", "registry",
+         "vararg_helper", "bool_flag", "record_property", "comp_after_subst", "search_helper"]
+DIFFERENT = ["neq_filter", "neq_later_mutation", "neq_order", "neq_search_default", "neq_option", "neq_gen_stop", "neq_vararg", "neq_search_helper"]
 
 
 def _alpha(t, mp):
